@@ -40,6 +40,14 @@ var gbyTransaction = gbyTable{
 }
 
 func runC11(p *Prog, r *Report) {
+	if want("C11.17") {
+		// Transaction.Get reads its buffer with the same lookup (shared with C01)
+		ruleMemGet(p, r, "C11.17")
+	}
+	if want("C11.16") {
+		// Transaction.Write replays the batch through the same codec (shared with C04)
+		ruleBatchCodec(p, r, "C11.16")
+	}
 	if want("C11.1") {
 		ruleSeqAtomic(p, r, "C11.1")
 		ruleTrRecordSeq(p, r, "C11.1b")
